@@ -1,1 +1,3 @@
 import GolibsVerif.Model.Lock
+import GolibsVerif.Lemmas.LockLeaseRuns
+import GolibsVerif.Lemmas.LockLeaseChain
